@@ -149,3 +149,26 @@ Theorem C12_element_allocator_extended_move_construction : forall L, wf_plist L 
         e_mem src' = e_mem src /\ fresh = true).
 Proof. exact elem_move_alloc_spec. Qed.
 Print Assumptions C12_element_allocator_extended_move_construction.
+
+(* the block of an element always covers what is copied into it *)
+Theorem C12_element_block_covers_its_content : forall mv L ms fls sb aid junk nb, wf_plist L = true ->
+  0 <= ref_bytes L fls ->
+  let el := snd (fst (elem_from_ref mv L ms fls sb aid junk nb)) in
+  ref_bytes L fls <= SA L * e_units el.
+Proof. exact elem_from_ref_block_covers. Qed.
+Print Assumptions C12_element_block_covers_its_content.
+
+(* move assignment between unequal non-propagating allocators (general path) reuses the target's
+   block only when the source's bytes fit into it, otherwise a new block of the source's unit
+   count is requested (seeded change C02f compared rounded-down units) *)
+Theorem C12_element_move_assignment_reuses_only_fitting_blocks : forall pocma ae L d src junk nb,
+  wf_plist L = true ->
+  (ae || pocma || (e_aid d =? e_aid src)) = false ->
+  (fixed_or_plain L && match e_bid d with Some _ => true | None => false end) = false ->
+  0 <= e_units d ->
+  let d' := fst (fst (fst (elem_move_assign pocma ae L d src junk nb))) in
+  if e_units d <? ref_bytes L (e_fl src)
+  then e_units d' = e_units src /\ e_bid d' = Some nb
+  else ref_bytes L (e_fl src) <= SA L * e_units d' /\ e_units d' = e_units d.
+Proof. exact elem_move_assign_block_covers. Qed.
+Print Assumptions C12_element_move_assignment_reuses_only_fitting_blocks.
